@@ -2,7 +2,7 @@
 
 from __future__ import annotations
 
-from quansino.mc.canonical import Canonical
+from quansino.mc.canonical import Canonical, HamiltonianCanonical
 from quansino.mc.contexts import (
     Context,
     DeformationContext,
@@ -18,12 +18,15 @@ from quansino.mc.criteria import (
     BaseCriteria,
     CanonicalCriteria,
     GrandCanonicalCriteria,
+    HamiltonianCanonicalCriteria,
     IsobaricCriteria,
+    IsotensionCriteria,
 )
 from quansino.mc.driver import Driver
 from quansino.mc.fbmc import AdaptiveForceBias, ForceBias
 from quansino.mc.gcmc import GrandCanonical
 from quansino.mc.isobaric import Isobaric
+from quansino.mc.isotension import Isotension
 from quansino.registry import register_class
 
 __all__ = [
@@ -68,6 +71,10 @@ mc_registry = {
     "IsobaricCriteria": IsobaricCriteria,
     "GrandCanonicalCriteria": GrandCanonicalCriteria,
     "MonteCarlo": MonteCarlo,
+    "HamiltonianCanonical": HamiltonianCanonical,
+    "Isotension": Isotension,
+    "HamiltonianCanonicalCriteria": HamiltonianCanonicalCriteria,
+    "IsotensionCriteria": IsotensionCriteria,
 }
 
 for name, mc_class in mc_registry.items():
